@@ -71,7 +71,7 @@ func (c c17) Generate(e *Env) ([]*Case, error) {
 	pool := c06Pool(e.Tier)
 	ps := []int{1, 2, 4}
 	scheds := []string{"random", "sticky", "pct"}
-	starts := []string{"template", "tool-empty", "template", "aged", "warm", "tool-empty"}
+	starts := []string{"template", "tool-empty", "link-missing", "aged", "warm", "old-stamp", "template"}
 	mixes := []func() []c17Client{
 		func() []c17Client { // same project, same flags
 			return []c17Client{{"p1", "default", ps[rng.Intn(3)]}, {"p1", "default", ps[rng.Intn(3)]}}
@@ -110,6 +110,8 @@ type c17Run struct {
 	outs    []string
 	monitor string // first monitor violation, "" if none
 	monKey  string
+
+	halfWindows int // times a half-written linker output was exposed to the other clients
 }
 
 func (c c17) runOnce(e *Env, p c17Params, traces map[string][]engine.Step, label string) (*c17Run, *world.World, error) {
@@ -140,6 +142,17 @@ func (c c17) runOnce(e *Env, p c17Params, traces map[string][]engine.Step, label
 	switch p.Start {
 	case "tool-empty":
 		os.RemoveAll(filepath.Join(w.GarbleCache, "tool"))
+	case "link-missing":
+		// The linker binary is gone but its stamp is intact: whoever links first must rebuild it.
+		os.Remove(filepath.Join(w.GarbleCache, "tool", "link"))
+	case "old-stamp":
+		// As link-missing, with the stamp in the format older garble versions wrote (first line only).
+		os.Remove(filepath.Join(w.GarbleCache, "tool", "link"))
+		vp := filepath.Join(w.GarbleCache, "tool", "link.version")
+		if b, err := os.ReadFile(vp); err == nil {
+			first, _, _ := strings.Cut(string(b), "\n")
+			os.WriteFile(vp, []byte(first+"\n"), 0o777)
+		}
 	case "aged":
 		ageTree(filepath.Join(w.GarbleCache, "build"), 7)
 	case "warm":
@@ -199,7 +212,44 @@ func (c c17) runOnce(e *Env, p c17Params, traces map[string][]engine.Step, label
 			}
 		}
 	}
-	s, err := runSim(w, r.clients, p.Sched.Policy(), false, traces[label], hook)
+	// While the producer of the linker has not returned from `go build -o`, the
+	// others see a half-copied output: the tool run is real and atomic from the
+	// simulator's point of view, so the in-flight state is emulated by truncating
+	// the declared output while the producer is parked at its exec-done event and
+	// restoring it right before the producer proceeds.
+	saved := map[string][]byte{}
+	outputOf := func(s *engine.Sim, proc string) string {
+		for i := len(s.Log) - 1; i >= 0; i-- {
+			le := s.Log[i]
+			if le.Proc == proc && le.Msg.T == "ev" && le.Msg.Op == "exec" {
+				for j, a := range le.Msg.Args {
+					if a == "-o" && j+1 < len(le.Msg.Args) {
+						return le.Msg.Args[j+1]
+					}
+				}
+				return ""
+			}
+		}
+		return ""
+	}
+	onPark := func(s *engine.Sim, pr *engine.Proc, ev *engine.Msg) {
+		if ev.Op != "exec-done" || !strings.Contains(ev.Site, "buildLinker") || ev.Code != 0 {
+			return
+		}
+		out := outputOf(s, pr.ID)
+		if b, err := os.ReadFile(out); err == nil && len(b) > 0 {
+			saved[pr.ID] = b
+			os.Truncate(out, int64(len(b)/2))
+			r.halfWindows++
+		}
+	}
+	beforeRelease := func(s *engine.Sim, pr *engine.Proc, ev *engine.Msg) {
+		if b, ok := saved[pr.ID]; ok && ev.Op == "exec-done" {
+			os.WriteFile(outputOf(s, pr.ID), b, 0o755)
+			delete(saved, pr.ID)
+		}
+	}
+	s, err := runSimH(w, r.clients, p.Sched.Policy(), false, traces[label], simHooks{OnStep: hook, OnPark: onPark, BeforeRelease: beforeRelease})
 	r.sim = s
 	if err != nil {
 		w.Close()
@@ -233,6 +283,7 @@ func (c c17) Run(e *Env, cs *Case) (*Outcome, error) {
 	if s.Stats.LockWaits > 0 {
 		o.Probes["process-waited-for-a-file-lock"]++
 	}
+	o.Probes["half-written-linker-window-exposed"] += r.halfWindows
 	for _, st := range s.Steps {
 		if st.Op == "exec" && strings.Contains(st.Site, "buildLinker") {
 			o.Probes["linker-built-during-run"]++
